@@ -361,6 +361,20 @@ fn run_e1store(args: &Args, run_seed: u64, known: &HashSet<String>, dir: &std::p
     if local.samples.len() < 2 && trace.steps.len() <= 8 {
         local.samples.push(e1_store::replay_json(&trace, Some((3, false))));
     }
+    if args.flag("configs") {
+        let (v, c) = e1_store::config_probes(dir, run_seed);
+        local.runs += 1;
+        local.counters.merge(&c);
+        local.nontrivial.insert(run_seed);
+        if let Some(v) = v {
+            local.violations.push(json!({
+                "violation": v.to_json(),
+                "trace": {"engine":"e1store","property":"C16","config_probe_seed":run_seed.to_string(),"depth":3,"nodes":["rlnp"],"steps":[],"store":{}},
+                "original_steps": 0, "shrink_runs": 0, "seed": run_seed.to_string(),
+            }));
+        }
+        return;
+    }
     if args.flag("crash") {
         // the history in a child process that exits at storage write k, for every k it reaches
         let mut t = trace.clone();
